@@ -693,7 +693,13 @@ pub fn check<P: Property>(tier: Tier, seed: u64) -> i32 {
             running.push((child, out, ci.clone(), Instant::now()));
             next += 1;
         }
-        if stop_spawning && running.is_empty() {
+        if stop_spawning {
+            // a violation is confirmed: do not wait for the other workers
+            for r in running.iter_mut() {
+                let _ = r.0.kill();
+                let _ = r.0.wait();
+            }
+            running.clear();
             break;
         }
         let mut i = 0;
@@ -720,6 +726,11 @@ pub fn check<P: Property>(tier: Tier, seed: u64) -> i32 {
                     .and_then(|b| serde_json::from_slice::<WorkerResult>(&b).ok())
                 {
                     Some(r) => {
+                        if r.hang.is_some() && stop_spawning {
+                            // a violation is already confirmed: no need to verify more hangs
+                            results.push(r);
+                            continue;
+                        }
                         if let Some(hcase) = &r.hang {
                             // re-run twice in isolation: reproducible => hang (a failure)
                             let f = replay_dir(P::ID).join(format!(
@@ -733,8 +744,8 @@ pub fn check<P: Property>(tier: Tier, seed: u64) -> i32 {
                                 }))
                                 .unwrap(),
                             );
-                            let a = replay_subprocess(P::ID, &f, P::case_timeout() * 2);
-                            let b = replay_subprocess(P::ID, &f, P::case_timeout() * 2);
+                            let a = replay_subprocess(P::ID, &f, P::case_timeout());
+                            let b = if a.timed_out { replay_subprocess(P::ID, &f, P::case_timeout()) } else { ReplayVerdict { failed: false, timed_out: false, sig: String::new(), msg: String::new() } };
                             if a.timed_out && b.timed_out {
                                 if let Some(k) = kf::match_open(&findings, P::ID, "hang") {
                                     *known_hit.entry(k.id.clone()).or_insert(0) += 1;
